@@ -527,7 +527,7 @@ def make_connection(world, **kw):
 
 
 def run_encrypted_login(version, bits=1024, token=b'\x01\x02\x03\x04',
-                        server_id='-'):
+                        server_id='-', observer=False):
     """one complete encrypted login on the virtual network; returns the
     secret the server decrypted (for C18 E5)."""
     srv = Server({'version': version,
@@ -537,6 +537,16 @@ def run_encrypted_login(version, bits=1024, token=b'\x01\x02\x03\x04',
     world = vnet.World(servers=[srv])
     with vnet.installed(world):
         conn, o = make_connection(world, allowed_versions={version})
+        if observer:
+            # an ordinary (late) outgoing listener that raises IgnorePacket
+            # for everything it sees: per the documentation that only keeps
+            # LATER listeners from being called - the packet has been written
+            from minecraft.exceptions import IgnorePacket
+            from minecraft.networking.packets import Packet
+
+            def observe(p):
+                raise IgnorePacket
+            conn.register_packet_listener(observe, Packet, outgoing=True)
         conn.connect()
         alive = world.join_threads(20)
     if alive:
